@@ -805,7 +805,11 @@ class QvmCpu:
         self._bitwise(lambda a, b: ~(a ^ b))
 
     def _exec_errget(self):
-        self.push(CellType.INTEGER, self.last_trap.value)
+        if self.last_trap is None:
+            # no error so far
+            self.push(CellType.INTEGER, 0)
+        else:
+            self.push(CellType.INTEGER, self.last_trap.value)
 
     def _exec_errhand(self, target):
         if target == 0 and self.error_handler_active:
